@@ -85,11 +85,13 @@ def answer (line : String) : String :=
   | ["chk", l, h] =>
     match l.toInt?, strOfHex h with
     | some ℓ, some str =>
-      let m := showRes (fun _ => "") (Model.checkMnemonic X D str ℓ)
-      let ss := Unicode.streamSafe str
+      -- the NFKD form is computed once and shared (the model applies its normaliser to `str` only)
+      let n := Unicode.nfkd str
+      let m := showRes (fun _ => "") (Model.checkMnemonic (fun _ => n) D str ℓ)
+      let ss := decide (Unicode.maxKRun n ≤ 30)
       let s := match Spec.Lang.ofValue ℓ with
         | none => "reject ws=0"
-        | some L => showRes (fun _ => "") (specClassify L str) ++ " ws=" ++ b01 (Spec.validWs D L str)
+        | some L => showRes (fun _ => "") (Spec.classify D L (splitOn 0x20 n)) ++ " ws=" ++ b01 (Spec.checksumOK D L (Spec.fields n))
       s!"M {m}\tS {s} ss={b01 ss}"
     | _, _ => "bad-op"
   | ["newm", n, l, sc] =>
